@@ -191,16 +191,16 @@ Section Within.
   Lemma Forall2_len {A B} (P : A -> B -> Prop) l l' : Forall2 P l l' -> length l = length l'.
   Proof. induction 1; cbn [length]; congruence. Qed.
 
-  Lemma sum_cons a l : sum (a :: l) = a + sum l.
+  Lemma rb_sum_cons a l : sum (a :: l) = a + sum l.
   Proof. reflexivity. Qed.
 
   Lemma sum_nonneg l : Forall (fun t => 0 <= t) l -> 0 <= sum l.
-  Proof. induction 1 as [|a l Ha Hl IH]; [unfold sum; cbn; lra | rewrite sum_cons; lra]. Qed.
+  Proof. induction 1 as [|a l Ha Hl IH]; [unfold sum; cbn; lra | rewrite rb_sum_cons; lra]. Qed.
 
   Lemma sum_pos l : Forall (fun t => 0 < t) l -> (1 <= length l)%nat -> 0 < sum l.
   Proof.
     intros HF HL. destruct l as [|a l]; [cbn in HL; lia|]. inversion HF as [|a0 l0 Ha Hl]; subst.
-    rewrite sum_cons. assert (0 <= sum l); [|lra]. apply sum_nonneg. revert Hl. apply Forall_impl. intros; lra.
+    rewrite rb_sum_cons. assert (0 <= sum l); [|lra]. apply sum_nonneg. revert Hl. apply Forall_impl. intros; lra.
   Qed.
 
   (* entrywise bounds add up *)
@@ -209,7 +209,7 @@ Section Within.
   Proof.
     intros H2 HN. apply within_nonneg_intro; [now apply sum_nonneg|].
     induction H2 as [|a a' l l' Ha Hl IH]; [unfold sum; cbn; lra|].
-    inversion HN as [|a0 l0 Na Nl]; subst. rewrite !sum_cons.
+    inversion HN as [|a0 l0 Na Nl]; subst. rewrite !rb_sum_cons.
     pose proof (within_nonneg_elim _ _ _ Na Ha). specialize (IH Nl). lra.
   Qed.
 
@@ -234,7 +234,7 @@ Section Within.
     Proof.
       induction l as [|e l IH]; intros acc s j HN Hs B.
       - cbn [fold_left length]. rewrite Nat.add_0_r. unfold sum; cbn [fold_right]. rewrite Rplus_0_r. exact B.
-      - inversion HN as [|e0 l0 He Hl]; subst. cbn [fold_left length]. rewrite sum_cons.
+      - inversion HN as [|e0 l0 He Hl]; subst. cbn [fold_left length]. rewrite rb_sum_cons.
         replace (j + S (length l))%nat with (S j + length l)%nat by lia.
         replace (s + (e + sum l)) with ((s + e) + sum l) by ring.
         apply IH; [exact Hl | lra|].
@@ -258,7 +258,7 @@ Section Within.
     Proof.
       intros HN. destruct l as [|a l].
       - cbn [rsum length Nat.pred pow]. unfold sum; cbn. lra.
-      - inversion HN as [|a0 l0 Ha Hl]; subst. cbn [rsum length Nat.pred]. rewrite sum_cons.
+      - inversion HN as [|a0 l0 Ha Hl]; subst. cbn [rsum length Nat.pred]. rewrite rb_sum_cons.
         apply (fold_rsum_bounds l a a 0%nat Hl Ha). cbn [pow]. lra.
     Qed.
 
@@ -279,7 +279,7 @@ Section Within.
       { clear HL. induction H2 as [|t t' l l' [H0 [Lo Hi]] Hl IH]; constructor; [nra | exact IH]. }
       assert (HS : 0 <= sum l /\ (1 - e') * sum l <= sum l' <= (1 + e) * sum l).
       { clear HL HN'. induction H2 as [|t t' l l' [H0 [Lo Hi]] Hl IH]; [unfold sum; cbn; lra|].
-        rewrite !sum_cons. lra. }
+        rewrite !rb_sum_cons. lra. }
       pose proof (rsum_bounds l' HN') as [Lo Hi]. rewrite HL in Lo, Hi.
       pose proof (mu_pos u (Nat.pred (length l)) U1). pose proof (pu_pos u (Nat.pred (length l)) U0).
       destruct HS as [S0 [SL SH]]. split.
